@@ -46,6 +46,16 @@ CLAIMED = {
          "Trusted: CPython's ast parser, sa/props/c13.py (the micro-step model of open/replace/mkdir/unlink and the pre/post "
          "state table of the five persisting operations), the CFG path enumeration. Assumes rename is atomic and a crash "
          "falls between file-system calls; fsync/torn writes are not modelled."),
+ "C07": ("interprocedural alias analysis on flow-sensitive use-def terms (ast/CFG)",
+         "Decides the premise of the property for the library layer: no statement reachable from the scheme constructors, "
+         "_parse_config, _Gen/_Enc/_Trap/_Search, their public wrappers and the toolkit/structures helpers they call mutates "
+         "an object reachable from a parameter (database, key, config dict, index, token), from self outside __init__, or "
+         "from a module global (DEFAULT_CONFIG). Shallow copies keep elements aliased; deepcopy and immutable results cut "
+         "the alias; callee mutation summaries are propagated to call sites. Since no state survives a call, search order "
+         "cannot matter. All 9 schemes, all paths; nothing is executed.",
+         "Trusted: CPython's ast parser, the alias rules in sa/props/c07.py (which constructors copy shallowly/deeply, which "
+         "methods mutate), the use-def engine sa/terms.py. Assumes deepcopy and bytes/int/tuple values do not alias; C-level "
+         "or reflective mutation (setattr by name is flagged, ctypes etc. are not modelled)."),
 }
 NA_REASON = "check under construction in this session (see DESIGN.md section 3); not yet registered"
 NA = {}
